@@ -108,7 +108,7 @@ def rename_args(src: str, rng) -> str:
 
 # ---------------------------------------------------------------- rejectors (F1)
 
-REJECT_KINDS = ["while", "matmul", "unknown_name", "no_return_ann", "dunder", "bad_type", "undef_call", "bad_index", "lambda", "late_unknown"]
+REJECT_KINDS = ["while", "matmul", "unknown_name", "no_return_ann", "unknown_qgate", "bad_type", "undef_call", "bad_index", "lambda", "late_unknown", "unknown_qgate"]
 
 
 def make_rejector(src: str, rng):
@@ -132,8 +132,10 @@ def make_rejector(src: str, rng):
             r.value = ast.BoolOp(op=ast.And(), values=[r.value, ast.Name(id="zz_unknown", ctx=ast.Load())]) if kind == "unknown_name" else ast.Name(id="zz_unknown", ctx=ast.Load())
         elif kind == "no_return_ann":
             fd.returns = None
-        elif kind == "dunder":
-            body.insert(min(pos, max(len(body) - 1, 0)), ast.parse("__x = True").body[0])
+        elif kind == "unknown_qgate" and rets:
+            # accepted by the front end, refused by circuit synthesis (after sub-expressions were mapped)
+            r = rets[-1]
+            r.value = ast.Call(func=ast.Attribute(value=ast.Name(id="Q", ctx=ast.Load()), attr=rng.choice(["Hadamard", "Nope", "QFT"]), ctx=ast.Load()), args=[r.value], keywords=[])
         elif kind == "bad_type" and fd.args.args:
             a = rng.choice(fd.args.args)
             a.annotation = ast.Name(id="Qnothing", ctx=ast.Load())
@@ -274,3 +276,45 @@ def grammar(rng, name="f", max_bits=8):
     src = f"def {name}({', '.join(f'{n}: {t}' for n, t in args)}) -> {ret}:\n" + "\n".join(body) + ("\n" if body else "") + f"    return {rexp}\n"
     meta = {"id": "gram", "nargs": nargs, "in_bits": bits, "ret_bool": not ret_int, "argsig": [[n, t] for n, t in args], "retsig": ret, "t": 0.01, "outcome": "ok"}
     return src, meta
+
+
+# ---------------------------------------------------------------- typed twins
+# helpers that agree in name, argument names, bit widths and boolean expressions but differ in
+# their high-level types; a caller uses the result in a type-directed way
+TWIN_TYPES = {2: ["Qint[2]", "Tuple[bool, bool]", "Qlist[bool, 2]"], 4: ["Qint[4]", "Qfixed[2, 2]", "Tuple[Qint[2], Qint[2]]", "Qlist[Qint[2], 2]"]}
+
+
+def typed_twin(rng, name):
+    """(helper src, helper meta, caller body builder)"""
+    w = rng.choice([2, 4])
+    ty = rng.choice(TWIN_TYPES[w])
+    shape = rng.choice(["ident", "sel", "sel"])
+    if shape == "ident":
+        src = f"def {name}(x: {ty}) -> {ty}:\n    return x\n"
+        argsig = [["x", ty]]
+    else:
+        src = f"def {name}(c: bool, x: {ty}, y: {ty}) -> {ty}:\n    return x if c else y\n"
+        argsig = [["c", "bool"], ["x", ty], ["y", ty]]
+    meta = {"id": "twin", "nargs": len(argsig), "in_bits": w * (len(argsig) - (1 if shape == "sel" else 0)) + (1 if shape == "sel" else 0), "ret_bool": False, "argsig": argsig, "retsig": ty, "t": 0.01, "outcome": "ok", "twin": True}
+    return src, meta
+
+
+def twin_caller(callee_name, argsig, retsig, cname, rng):
+    args = [(f"p{i}", ann) for i, (_, ann) in enumerate(argsig)]
+    sig = ", ".join(f"{n}: {ann}" for n, ann in args)
+    names = [n for n, _ in args]
+    call = f"{callee_name}({', '.join(names)})"
+    if len(args) == 3:
+        call2 = f"{callee_name}({names[0]}, {names[2]}, {names[1]})"
+    else:
+        call2 = call
+    if retsig.startswith("Qint[") or retsig.startswith("Qfixed"):
+        form = rng.randrange(3)
+        if form == 0:
+            return f"def {cname}({sig}) -> bool:\n    hi = {call}\n    lo = {call2}\n    return hi > lo\n"
+        if form == 1:
+            return f"def {cname}({sig}) -> bool:\n    return {call} >= {call2}\n"
+        return f"def {cname}({sig}) -> {retsig}:\n    return {call} + {call2}\n"
+    if retsig.startswith("Tuple[bool") or retsig.startswith("Qlist[bool"):
+        return f"def {cname}({sig}) -> bool:\n    r = {call}\n    return r[0] and not r[1]\n"
+    return f"def {cname}({sig}) -> bool:\n    r = {call}\n    return r[0] == r[1]\n"
